@@ -408,12 +408,12 @@ def run_spec(spec, tier, seed, replay=None):
     for fn in spec.get("custom", []):
         fn(ctx)
     # 6. widen the search when something broke and no failing input is known yet
-    if built and (ctx.broken or ctx.disagree) and not ctx.failing:
+    if built and (ctx.broken or ctx.disagree) and not [f for f in ctx.failing if not known_match(ctx, f)]:
         ctx.notes.append("widening search: 3 extra seeds at 4x budget")
         for k in range(1, 4):
             for s in spec.get("steps", []):
                 run_step(ctx, s, ctx.seed + 7919 * k, 4.0, search=True)
-            if ctx.failing:
+            if [f for f in ctx.failing if not known_match(ctx, f)]:
                 break
     return finish(ctx, spec)
 
